@@ -159,7 +159,7 @@ CHECKS["C19"] = dict(
 CHECKS["C20"] = dict(
     category="exploration",
     technique="exhaustive hostile-input enumeration (IX) on real sessions under virtual time with a process-wide panic hook, spin guard and watchdog; parser sweeps; malformed input on the real front-ends (LX)",
-    text="Both roles: single frames over all 256 command bytes x ids {0,1,2,0xffffffff} x 9 payloads (valid / garbage / invalid-UTF-8 settings, 65535 bytes, hostile scheme texts with huge, negative and overflowing numbers), also as the very first frame, and all pairs over a reduced alphabet (quick 88^2, thorough 480^2); every bit flip in the first 160 bytes (thorough: all), every truncation, frame duplication, adjacent swap and length-field corruption {0, len-1, len+1, 65535} of a recorded conversation in each direction; the destination parser and the UDP initial-request / datagram parsers on all 256 type bytes x lengths {0,1,255} x truncations; the client side of a UDP association fed with 10 length prefixes x 5 body lengths written by a hostile server; ~400 HTTP header blocks with multi-byte characters at every offset of a header line and degenerate targets/methods; malformed byte strings on the SOCKS5 and HTTP listeners followed by a well-formed request on a sibling connection. Oracle: no panic on any thread, no spin or real-time wedge, and afterwards a well-formed exchange works or the session is closed with its transport shut down. LX also: connections stalling with incomplete input (held open) on both front-end listeners and on the server's TLS listener while a well-formed sibling request arrives. Long multi-byte texts, every valid text with one byte corrupted at every offset, headers that never end (must not be buffered beyond the limit), and a global-state poisoning probe (a later well-formed exchange in the same process must still work).",
+    text="Both roles: single frames over all 256 command bytes x ids {0,1,2,0xffffffff} x 9 payloads (valid / garbage / invalid-UTF-8 settings, 65535 bytes, hostile scheme texts with huge, negative and overflowing numbers), also as the very first frame, and all pairs over a reduced alphabet (quick 88^2, thorough 480^2); every bit flip in the first 160 bytes (thorough: all), every truncation, frame duplication, adjacent swap and length-field corruption {0, len-1, len+1, 65535} of a recorded conversation in each direction; the destination parser and the UDP initial-request / datagram parsers on all 256 type bytes x lengths {0,1,255} x truncations; the client side of a UDP association fed with 10 length prefixes x 5 body lengths written by a hostile server; ~400 HTTP header blocks with multi-byte characters at every offset of a header line and degenerate targets/methods; malformed byte strings on the SOCKS5 and HTTP listeners followed by a well-formed request on a sibling connection. Oracle: no panic on any thread, no spin or real-time wedge, and afterwards a well-formed exchange works or the session is closed with its transport shut down. Two applications sharing a session through the real SOCKS5 / HTTP CONNECT front-end, one of which resets its connection (SO_LINGER 0): the other's tunnel keeps working. LX also: connections stalling with incomplete input (held open) on both front-end listeners and on the server's TLS listener while a well-formed sibling request arrives. Long multi-byte texts, every valid text with one byte corrupted at every offset, headers that never end (must not be buffered beyond the limit), and a global-state poisoning probe (a later well-formed exchange in the same process must still work).",
     note="Trusted: hostile input is zero-padded to the next frame boundary of the reference parser before the follow-up exchange (a corrupted length legitimately swallows what follows); 1 h virtual horizon; panic hook is process-wide.",
     design="DESIGN.md §6 C20",
 )
